@@ -26,15 +26,16 @@ Print Assumptions C01_single_resource_convergence.
    gateway on every check): for every sequence of stimuli and scheduler grants, when nothing is left to do - both kinds of
    queue empty, every request the gateway sent answered - the copy a client keeps from the frames it was sent alone (the
    snapshot of a response that carried the resource, every change event applied in order, dropped when its subscription
-   count returns to zero) is the state the service last announced, for every connected client that holds a subscription and was never
-   acknowledged an unsubscribe of more subscriptions than it held (the next theorem shows what happens otherwise). *)
+   count returns to zero) is the state the service last announced, for every connected client that holds a subscription, was never
+   acknowledged an unsubscribe of more subscriptions than it held and was never sent an empty resource set while it held
+   nothing (the two theorems after the next show what happens otherwise). *)
 Theorem C01_core_client_copy_converges :
   forall (val upd : Type) (app : upd -> val -> val) (norm : upd -> val -> option upd) (d : val),
   (forall u v, norm u v = None -> app u v = v) ->
   (forall u v u', norm u v = Some u' -> app u' v = app u v) ->
   forall t ops c,
   let s := fst (Core.exec val upd app norm d t ops) in let outs := snd (Core.exec val upd app norm d t ops) in
-  Core.quiescent val upd s -> Core.disc (Core.conns val upd s c) = false -> Core.no_underflow val upd app c outs ->
+  Core.quiescent val upd s -> Core.disc (Core.conns val upd s c) = false -> Core.no_underflow val upd app c outs -> Core.no_bare_resp val upd app c outs ->
   0 < Core.lcnt val (Core.client val upd app c outs) ->
   Core.lcopy val (Core.client val upd app c outs) = Some (Conv.truth val upd (Core.cv val upd s)).
 Proof. exact CoreProofsABC.core_convergence. Qed.
@@ -59,3 +60,19 @@ Theorem C01_core_convergence_without_premise_refuted :
     Core.lcopy nat (Core.client nat nat Nat.add 0 outs) <> Some (Conv.truth nat nat (Core.cv nat nat s)).
 Proof. exact CoreProofsABC.core_convergence_refuted. Qed.
 Print Assumptions C01_core_convergence_without_premise_refuted.
+
+(* Without the second premise: during a re-validation (token event) the client asks for a second subscription and then gives
+   up its first one; the gateway counts the waiting request, keeps the Subscription object "sent", and later answers the
+   request with an empty resource set - a client that drops its copy when its count reaches zero ends up holding a subscription
+   without the resource's data (a client that also counts its outstanding requests, as the monitors' reference client does,
+   keeps the copy). Model and code agree on such histories (`core` stage). *)
+Theorem C01_core_client_copy_without_second_premise_refuted :
+  exists ops : list (Core.op nat),
+    let s := fst (Core.exec nat nat Nat.add (fun u _ => Some u) 0 100 ops) in
+    let outs := snd (Core.exec nat nat Nat.add (fun u _ => Some u) 0 100 ops) in
+    Core.quiescent nat nat s /\ Core.disc (Core.conns nat nat s 0) = false /\ Core.no_underflow nat nat Nat.add 0 outs /\
+    0 < Core.lcnt nat (Core.client nat nat Nat.add 0 outs) /\ Core.lcopy nat (Core.client nat nat Nat.add 0 outs) = None /\
+    Conv.sent nat nat (Conv.subs nat nat (Core.cv nat nat s) 0) = true /\
+    ~ Core.no_bare_resp nat nat Nat.add 0 outs.
+Proof. exact CoreProofsABC.core_client_copy_without_premise_refuted. Qed.
+Print Assumptions C01_core_client_copy_without_second_premise_refuted.
